@@ -109,7 +109,31 @@ let issimple_misjudged (gs : n geomT list) : bool =
   List.iter go gs;
   !bad
 
+(* number of rings (closed in every ordinate, simple in exact arithmetic) of the pair that list a
+   control point twice in a row: the rotation search meets several positions at which the start
+   vertex of the other ring occurs *)
+let rings_with_repeated_vertex (gs : n geomT list) : int =
+  let cnt = ref 0 in
+  let line (l : n lineT) =
+    let MkLine (ct, vs) = l in
+    if List.length vs >= 2 && is_closed feq_bits l && ends_eq feq_bits (xy_eq_bits N0) l && simple_exact l then begin
+      let vs' = List.map (nzv ct) vs in
+      let rec rep = function a :: (b :: _ as r) -> a = b || rep r | _ -> false in
+      if rep vs' then incr cnt
+    end in
+  let poly (MkPoly (_, rs)) = List.iter line rs in
+  let rec go = function
+    | GPoint _ | GMPoint _ -> ()
+    | GLine l -> line l
+    | GPoly p -> poly p
+    | GMLine (_, ls) -> List.iter line ls
+    | GMPoly (_, ps) -> List.iter poly ps
+    | GColl (_, gs) -> List.iter go gs in
+  List.iter go gs;
+  !cnt
+
 let samples = ref 0
+let samples_rr = ref 0
 
 let () =
   let path = Sys.argv.(1) in
@@ -130,6 +154,7 @@ let () =
       let finite = nan_free g && nan_free h in
       let misj = issimple_misjudged [g; h] in
       if misj then count "issimple_misjudged";
+      if rings_with_repeated_vertex [g; h] > 0 then count "pairs_with_repeated_vertex_ring";
       (* failures of the IgnoreOrder statements: own check name when IsSimple misjudged a closed line *)
       let fail_io sub detail =
         if misj then fail id "SPEC" "ignore_order_issimple_misjudged" (sub ^ ": " ^ detail)
@@ -242,6 +267,10 @@ let () =
                 fail id "SPEC" "control_point_census" (Printf.sprintf "equal under tol=%s io=%b although the numbers of control points / empty points differ" tols.(ti) io))
             [false; true]
         done;
+      if !samples_rr < 2 && cls = "repeated_vertex_ring" && expect = "P0I1" then begin
+        incr samples_rr;
+        Printf.printf "SAMPLE\t%s %s G=[%s] H=[%s] obs=%s expect=%s\n" id cls (trunc f.(2)) (trunc f.(3)) obs expect
+      end;
       if !samples < 4 && (cls = "one_move" || cls = "ulp") then begin
         incr samples;
         Printf.printf "SAMPLE\t%s %s G=[%s] H=[%s] obs=%s expect=%s\n" id cls (trunc f.(2)) (trunc f.(3)) obs expect
